@@ -394,6 +394,14 @@ class SymCtx:
         f = self.I.resolve(target) if isinstance(target, str) else (self.I.getattr(target[0], target[1]) if isinstance(target, tuple) else target)
         return self.I.call(f, [self._lift(a) for a in args], {k: self._lift(v) for k, v in kwargs.items()})
 
+    def invoke_catch(self, target, *args, **kwargs):
+        """like invoke, but returns the name of the exception the call ended with (None if it returned)"""
+        try:
+            self.invoke(target, *args, **kwargs)
+            return None
+        except PyRaise as pr:
+            return pr.exc.cls.name
+
     def raiser(self, excname, *args):
         """a callable (for Ext `returns`) that raises the named exception"""
         def f(*_a):
